@@ -81,7 +81,7 @@ Theorem ids_legal :
      next = last + 2 /\ 0 <= issued <= STREAM_ID_MAX /\ last - 0 <= issued + 0 /\ issued < next /\
      (Z.even last = true -> Z.odd issued = client)) /\
   (forall last client, STREAM_ID_MAX + 1 <= last -> next_stream_id last client = None) /\
-  (forall c w chunks c' r, start_stream c w chunks = (c', r) ->
+  (forall c chunks c' r, start_stream c chunks = (c', r) ->
      (r <> None -> Z.of_nat (length (streams c)) < max_conc c /\ length (streams c') = S (length (streams c))) /\
      (r = None -> c' = c)).
 Proof.
@@ -124,22 +124,65 @@ Example replenish_legal_nonvacuous :
   queue_window_update 3 [(1, 10); (3, 2147483000)] 3 70000 = [(1, 10); (3, 2147483647)].
 Proof. vm_compute. reflexivity. Qed.
 
-(** Known finding (open): [start_stream] attaches a stream with whatever window
-    the shared [Stream] object carries ([w]); nothing resets it to the backend
-    connection's [init_win].  When [w] is larger (an H2 client that announced a
-    large window) the write pass can exceed what the backend granted that stream:
-    the theorem [never_over_window] is about the windows sozu holds, so the
-    peer-side statement needs [w <= init_win]; this is the witness without it. *)
-Example start_stream_window_refuted :
-  exists c w chunks,
-    init_win c = 65535 /\ cwin c = 1000000 /\
-    let '(c', _) := start_stream c w chunks in
-    match write_pass 100 c' with
-    | Some (_, out) => exists s n, In (s, n) out /\ 65535 < fold_right Z.add 0 (map snd out)
-    | None => False
-    end.
+(** 6. Schedule level.  One stream and its connection, with the PEER's own books
+    next to them (credit granted, bytes received: ghost fields), driven by ANY
+    list of events: WINDOW_UPDATE on the connection / on the stream (any
+    increment: illegal ones end the run), SETTINGS_INITIAL_WINDOW_SIZE (any
+    value, shrinking included), other streams' write turns, this stream's write
+    turns.  At every point (the statement is for every list, hence for every
+    prefix): each window equals credit granted minus bytes sent, for the stream
+    and for the connection; a step never moves [sent] above
+    [max sent credit] (so [sent <= credit] whenever no SETTINGS shrink took
+    credit back below what was already sent, and nothing is emitted while a
+    window is <= 0); every DATA frame is within the peer's max frame size. *)
+Theorem never_over_window_schedule :
+  (forall evs b b' out, balanced b -> brun b evs = (b', out) ->
+     balanced b' /\ k_ss b <= k_ss b' /\ k_sc b <= k_sc b') /\
+  (forall b e b' fr, balanced b -> bstep b e = (b', fr) ->
+     balanced b' /\ Forall (fun f => 0 <= f /\ f <= b_mf b) fr /\
+     k_ss b' = k_ss b + sumz fr /\ k_sc b' >= k_sc b + sumz fr /\
+     k_ss b' <= Z.max (k_ss b) (k_cs b) /\ k_sc b' <= Z.max (k_sc b) (k_cc b) /\
+     k_ss b <= k_ss b' /\ k_sc b <= k_sc b') /\
+  (forall b, balanced b ->
+     (0 <= b_sw b -> k_ss b <= k_cs b) /\ (0 <= b_cw b -> k_sc b <= k_cc b)).
 Proof.
-  exists (mkconn 1000000 65535 16384 100 0 true [] false), 6291456, [200000].
-  split; [reflexivity|]. split; [reflexivity|].
-  vm_compute. exists 1, 16384. split; [left; reflexivity|reflexivity].
+  split; [exact brun_balanced|]. split; [exact bstep_balanced|exact balanced_sent_le_credit].
+Qed.
+
+Example never_over_window_schedule_nonvacuous :
+  let b0 := mkbooks 65535 65535 65535 16384 [200000] 65535 0 65535 0 false in
+  balanced b0 /\
+  (let '(b, out) := brun b0 [EWrite 100; ESettingsIW 100; EWrite 100; EWUconn 50000; EWUstream 70000; EWrite 100] in
+   (b_sw b, b_cw b, k_ss b, k_cs b, out) =
+   (0, 45435, 70100, 70100, [[16384; 16384; 16384; 16383]; []; []; []; []; [4565]])).
+Proof.
+  split.
+  - unfold balanced, I32_MIN, I32_MAX. cbn. repeat split; try lia. repeat constructor; lia.
+  - vm_compute. reflexivity.
+Qed.
+
+(** 7. Complete transfer.  A round = the peer's updates have made both windows
+    positive (ANY positive values: tiny drips included) and the stream gets a
+    write turn with a legal max frame size.  After at most as many rounds as
+    there are body bytes, nothing is left queued: the whole body was sent
+    (induction on the bytes left, from [progress]).  The delivery of the
+    WRITABLE event that starts each round is the runtime part (theorem 2 shows
+    it is armed on every <=0 -> >0 transition). *)
+Theorem transfer_completes :
+  forall n x x', Forall (fun c => 0 < c) (body x) -> rounds n x x' ->
+    sumz (body x) <= Z.of_nat n -> body x' = [].
+Proof. exact transfer_completes_l. Qed.
+
+Example transfer_completes_nonvacuous :
+  exists x', rounds 3 (mkstream 1 0 [3]) x' /\ body x' = [].
+Proof.
+  exists (mkstream 1 0 []).
+  split; [|reflexivity].
+  eapply rounds_S.
+  { eapply (round_intro (mkstream 1 0 [3]) (mkconn 1 65535 16384 100 2 true [] false) 1 10); try (unfold I32_MAX; cbn; lia). vm_compute. reflexivity. }
+  eapply rounds_S.
+  { eapply (round_intro (mkstream 1 0 [2]) (mkconn 1 65535 16384 100 2 true [] false) 1 10); try (unfold I32_MAX; cbn; lia). vm_compute. reflexivity. }
+  eapply rounds_S.
+  { eapply (round_intro (mkstream 1 0 [1]) (mkconn 1 65535 16384 100 2 true [] false) 1 10); try (unfold I32_MAX; cbn; lia). vm_compute. reflexivity. }
+  apply rounds_O.
 Qed.
